@@ -53,6 +53,15 @@ func (e *C01) one(ctx *core.Ctx) {
 	if r.Intn(3) == 0 {
 		tpl.Spec.NodeSelector = map[string]string{"zone": []string{"a", "b"}[r.Intn(2)]}
 	}
+	markerSel := r.Intn(6) == 0
+	if markerSel {
+		// a selector entry with an empty value (marker labels such as node-role.kubernetes.io/infra: ""): the
+		// label has to be there, with the empty value
+		if tpl.Spec.NodeSelector == nil {
+			tpl.Spec.NodeSelector = map[string]string{}
+		}
+		tpl.Spec.NodeSelector["node-role.example.com/infra"] = ""
+	}
 	switch r.Intn(6) {
 	case 0:
 		tpl.Spec.Affinity = &corev1.Affinity{NodeAffinity: &corev1.NodeAffinity{RequiredDuringSchedulingIgnoredDuringExecution: &corev1.NodeSelector{NodeSelectorTerms: []corev1.NodeSelectorTerm{{MatchExpressions: []corev1.NodeSelectorRequirement{{Key: "exclude", Operator: corev1.NodeSelectorOpNotIn, Values: []string{"foo"}}}}}}}}
@@ -100,6 +109,14 @@ func (e *C01) one(ctx *core.Ctx) {
 		}
 		if r.Intn(5) == 0 {
 			n.Labels["exclude"] = []string{"foo", "bar"}[r.Intn(2)]
+		}
+		if markerSel {
+			switch r.Intn(3) {
+			case 0:
+				n.Labels["node-role.example.com/infra"] = ""
+			case 1:
+				n.Labels["node-role.example.com/infra"] = "true"
+			}
 		}
 		switch r.Intn(7) {
 		case 0:
